@@ -189,7 +189,7 @@ pub fn run(ctx: &Ctx) {
     ctx.assume("model: multiset of keys whose insert returned Ok since the last clear, minus deletes of currently inserted keys, plus the other operand's keys after a successful union");
     ctx.run_regressions(&[&C01]);
     let tier = ctx.tier;
-    ctx.run_random(&C01, tier.pick(400_000, 6_000_000), move || strategy(tier));
+    ctx.run_random(&C01, tier.pick(400_000, 3_000_000), move || strategy(tier));
     ctx.require_class("history", "failed_insert", 0.05);
     ctx.require_class("history", "failed_union", 0.02);
     ctx.require_class("history", "cuckoo_eviction", 0.03);
